@@ -59,3 +59,23 @@ claim('C02',
       'Start drains a received batch completely before receiving the next (receive sites guarded by batch_iter == None; the batch is '
       'dropped only when its iterator returned None); the receiving ends and the batcher are not Clone.',
       'the dynamic history equality; FIFO-ness of flume and TCP is trusted.')
+claim('C20',
+      'no Drop impl of the crate can reach NetworkSender::send / Batcher::{enqueue,flush,end} / channel send in the call graph (a '
+      'panicking replica emits nothing while unwinding); no transport Result is discarded or neutralised (frozen exceptions); every '
+      'JoinHandle::join result reaches unwrap/expect; the worker loop exits only on Terminate; sinks write their shared output only '
+      'on the Terminate edge.',
+      'that every blocked worker unwinds under all schedules (liveness), and which hosts observe the failure.')
+claim('C03',
+      'NextStrategy::index arm table (OnlyOne/All -> 0, Random -> rng, GroupBy -> keyer(message)); End::next / RoutingEnd::next '
+      'decision tables extracted from MIR: data elements are enqueued unconditionally once per downstream block to '
+      'senders[indexes[index % len]], control elements (Watermark, FlushAndRestart, Terminate) in the double loop over every block '
+      'and replica index with the single allowed skip (Terminate towards the feedback block); senders are sorted before grouping.',
+      'the concrete replica an element reaches for given replica counts (arithmetic on runtime values).')
+claim('C09',
+      'RoutingEnd sends a data element to the first matching route only (enqueue under is_match, not in a cycle), keeps routes in '
+      'insertion order, broadcasts control to every route.',
+      'multiset equalities and min(|a|,|b|) for concrete inputs.')
+claim('C16',
+      'Batcher appends (Vec::push of the message into self.buffer), ships the whole swapped-out buffer in flush/end, applies no '
+      'reordering mutator to the buffer.',
+      'order of delivered elements for concrete runs; the sort routine of reorder() is trusted.')
